@@ -109,6 +109,24 @@ func TestC04Weights(t *testing.T) {
 		}
 		var ts []tgt
 		var cfg strings.Builder
+		// the route's host: none, or a name that the commands spell in their own mix of cases
+		// (hosts are case-insensitive; the table stores them lower-cased)
+		host := rapid.SampledFrom([]string{"", "", "www.example.com", "api.example.com:8443"}).Draw(t, "host")
+		src := func() string {
+			if host == "" {
+				return "/p"
+			}
+			b := []byte(host)
+			for i := range b {
+				if b[i] >= 'a' && b[i] <= 'z' && rapid.IntRange(0, 3).Draw(t, "upper") == 0 {
+					b[i] -= 'a' - 'A'
+				}
+			}
+			if string(b) != host {
+				hx.Class("command-spells-the-host-with-upper-case-letters")
+			}
+			return string(b) + "/p"
+		}
 		for i := 0; i < n; i++ {
 			x := tgt{
 				svc:   rapid.SampledFrom([]string{"svc-a", "svc-b", "svc-c", "svc-d"}).Draw(t, "svc"),
@@ -117,7 +135,7 @@ func TestC04Weights(t *testing.T) {
 				fixed: genWeight(t),
 			}
 			ts = append(ts, x)
-			fmt.Fprintf(&cfg, "route add %s /p %s", x.svc, x.url)
+			fmt.Fprintf(&cfg, "route add %s %s %s", x.svc, src(), x.url)
 			if x.fixed != 0 {
 				fmt.Fprintf(&cfg, " weight %s", fmtW(x.fixed))
 			}
@@ -146,7 +164,7 @@ func TestC04Weights(t *testing.T) {
 				n++
 				hx.Class("target-added-again-with-another-weight-as-the-last-command")
 			}
-			fmt.Fprintf(&cfg, "route add %s /p %s", ts[i].svc, ts[i].url)
+			fmt.Fprintf(&cfg, "route add %s %s %s", ts[i].svc, src(), ts[i].url)
 			if w != 0 {
 				fmt.Fprintf(&cfg, " weight %s", fmtW(w))
 			}
@@ -181,12 +199,12 @@ func TestC04Weights(t *testing.T) {
 				ts[i].fixed = w / float64(len(idx))
 			}
 			if svc != "" {
-				fmt.Fprintf(&cfg, "route weight %s /p weight %s", svc, fmtW(w))
+				fmt.Fprintf(&cfg, "route weight %s %s weight %s", svc, src(), fmtW(w))
 				if len(tags) > 0 {
 					fmt.Fprintf(&cfg, " tags %q", strings.Join(tags, ","))
 				}
 			} else {
-				fmt.Fprintf(&cfg, "route weight /p weight %s tags %q", fmtW(w), strings.Join(tags, ","))
+				fmt.Fprintf(&cfg, "route weight %s weight %s tags %q", src(), fmtW(w), strings.Join(tags, ","))
 			}
 			cfg.WriteString("\n")
 		}
@@ -202,7 +220,10 @@ func TestC04Weights(t *testing.T) {
 			t.Fatalf("NewTable: %v\n%s", err, cfg.String())
 		}
 		hx.Eval()
-		r := tbl[""][0]
+		if len(tbl[host]) != 1 {
+			t.Fatalf("the table has %d routes for host %q, want 1\n%s", len(tbl[host]), host, cfg.String())
+		}
+		r := tbl[host][0]
 		if len(r.Targets) != n {
 			t.Fatalf("want %d targets, got %d\n%s", n, len(r.Targets), cfg.String())
 		}
@@ -238,7 +259,11 @@ func TestC04Weights(t *testing.T) {
 			if ring < n || ring > 1<<22 {
 				t.Fatalf("implausible cycle length %d for %d targets", ring, n)
 			}
-			req := &http.Request{Host: "h", URL: &url.URL{Path: "/p/x"}, Header: http.Header{}}
+			reqHost := "h"
+			if host != "" {
+				reqHost = host
+			}
+			req := &http.Request{Host: reqHost, URL: &url.URL{Path: "/p/x"}, Header: http.Header{}}
 			cache := route.NewGlobCache(10)
 			cycle := func() []int {
 				cnt := make([]int, n)
